@@ -13,7 +13,8 @@ THEOREMS = ['C02_relabel_range', 'C02_relabel_same_partition', 'C02_relabel_mono
             'C02_q_closing_louvainB_eq_def', 'C02_louvainB_modularity', 'C02_louvainB_potts',
             'C02_aggregate_preserves_Q', 'C02_aggregate_preserves_Qhalf', 'C02_aggregate_preserves_obj',
             'C02_level_pair_consistent', 'C02_given_partition_returns_Q_und', 'C02_given_partition_returns_Q_dir',
-            'C02_given_partition_returns_Q_sign', 'C02_spectral_labels_partial', 'C02_louvain_dir_q_refuted']
+            'C02_given_partition_returns_Q_sign', 'C02_spectral_labels_partial', 'C02_run_finetune_dir_consistent',
+            'C02_run_finetune_und_consistent', 'C02_louvain_dir_q_refuted']
 RULE = ('per routine: random structured networks n=3..9 (Erdos-Renyi at 3 densities, planted 2-3 groups, ring, star, two '
         'components, complete, one isolated node; optional self-loops) with integer weights 0..4 (binary for potts, random '
         'sign flips for the signed routines), directed where the routine accepts it, gamma in {1, 3/4, 5/4, 13/10}, all five '
